@@ -59,6 +59,44 @@ FAILS = [
 ]
 
 
+# Lines that occupy a KNOWN number of source lines but whose text is full of things a line counter can trip over: escape sequences that
+# denote line ends, real line ends inside string literals and inside interpolations, comment markers inside strings and quotes inside
+# comments.  Each item: the physical lines (valid code, prints nothing).
+NOISE = [
+    ['var nz_a = "a\\nb\\n\\n";'],
+    ['var nz_b = "tab\\t cr\\r bell\\a \\b \\f \\v nul\\0 q\\" bs\\\\ dollar\\$ hex\\x41 \\u4142 \\U41424344";'],
+    ['var nz_c = "first', 'second', 'third";'],
+    ['var nz_d = "i ${1 + 2} j ${"in ${3} ner"} k";'],
+    ['var nz_e = "p ${', '1 +', '2} q";'],
+    ['// comment with "quote and \\n and ${ and \\'],
+    ['var nz_f = "// not a comment"; // but this is "'],
+    ['var nz_g = "l1\\\\', 'l2\\n";'],
+    ['var nz_h = "\u00e9\u20ac\U0001f600 \\n";'],
+    ['var nz_i = "q\\"";', ''],
+    ['var nz_j = "${"\\n"}${"\\n\\n"}";'],
+    ['var nz_k = "x${"', '"}y\\n', '";'],
+    ['var nz_l = "\\x0a\\x0a";'],
+    ['', '   ', '// only a comment', ''],
+]
+
+
+def noise_lines(rng, max_items=4):
+    out = []
+    for _ in range(rng.below(max_items + 1)):
+        out += NOISE[rng.below(len(NOISE))]
+    return out
+
+
+def shift_expectation(exp, n):
+    if isinstance(exp, int):
+        return exp + n
+    if isinstance(exp, tuple):
+        return tuple(shift_expectation(e, n) for e in exp)
+    if isinstance(exp, dict):
+        return {k: [shift_expectation(e, n) for e in v] for k, v in exp.items()}
+    return exp
+
+
 def gen_trace_program(rng):
     """Returns (src, modules, expected_kind, expected_first_message or None, expected_trace_lines, fiber_boundary)."""
     lines = []
@@ -72,6 +110,8 @@ def gen_trace_program(rng):
     def emit(l):
         lines.append(l)
         return len(lines)
+    for nl in noise_lines(rng.fork("noise")):
+        emit(nl)
     if rng.chance(1, 3):
         # history: an earlier exception that was thrown in another function and caught must not disturb later reports
         emit("fn pre_thrower() {")
@@ -406,6 +446,11 @@ def correspondence(ctx, model_ok=True):
     for name, f in FAULTS:
         L, line = f(list(VALID_BASE))
         cat.append((name, "\n".join(L) + "\n", line))
+    # the same faults below every item of the lexical-noise catalogue (known number of source lines each), and below all of them
+    for k, item in enumerate(NOISE + [[l for it in NOISE for l in it]]):
+        for name, f in FAULTS[k % 3::3] if k < len(NOISE) else FAULTS:
+            L, line = f(list(VALID_BASE))
+            cat.append(("%s/noise%d" % (name, k), "\n".join(item + L) + "\n", shift_expectation(line, len(item))))
     for n in LONG_PREFIXES:
         cat.append(("fault-after-%d-empty-lines" % n, "\n" * n + "var = ;\n", n + 1))
     cres, _ = progs.run_programs(ctx.runner, [(n, s, {}) for n, s, _ in cat] + [("valid", "\n".join(VALID_BASE) + "\n", {})], {"gc": "default"}, tag="c")
@@ -420,12 +465,44 @@ def correspondence(ctx, model_ok=True):
                 any(g.startswith("[module \"main\", line %d]" % l) for l in ls) for g, ls in zip(got, want)) and not c[2]
             if not okall:
                 failures.append({"what": "compile errors for fault '%s' do not name lines %s in turn" % (name, line["all"]), "program": src,
-                                 "expected_lines": [list(w) for w in want], "observed": c, "signature": "compile-error line: " + name, "failing_input": True})
+                                 "expected_lines": [list(w) for w in want], "observed": c, "signature": "compile-error line: " + name.split("/")[0], "failing_input": True})
             continue
         lines_ok = line if isinstance(line, tuple) else (line,)
         if c[0] != "err" or c[1] != "CompileError" or not c[3] or not any(c[3][0].startswith("[module \"main\", line %d]" % l) for l in lines_ok) or c[2]:
             failures.append({"what": "compile error for fault '%s' does not name line %s first (or code ran)" % (name, line), "program": src,
-                             "expected_line": list(lines_ok), "observed": c, "signature": "compile-error line: " + name, "failing_input": True})
+                             "expected_line": list(lines_ok), "observed": c, "signature": "compile-error line: " + name.split("/")[0], "failing_input": True})
+    # one faulty source (at least) per compile-time message of the sources, on one line and with one token per line: the located messages
+    # must be those of the reference parser, the (line, quoted token) of each must be the reviewed one (tools/gen/cerrors_located.json:
+    # the offending token of every entry was checked by reading when the catalogue was written), and the catalogue must reach every
+    # message format the regenerated table lists (reported in the evidence; size-limit messages are C04's limit programs)
+    from gen import cerrors
+    import re as _re
+    ccases = cerrors.cases()
+    located = json.load(open(os.path.join(vlib.VERIF, "tools", "gen", "cerrors_located.json")))
+    clines = [vlib.case_line("e%d" % i, ["C:" + vlib.hx(src)]) for i, (_, src) in enumerate(ccases)]
+    creal = vlib.run_real(ctx.runner, clines, timeout_per_batch=300, batch=400)
+    observed_msgs = []
+    for (name, src), r in zip(ccases, creal):
+        st = (r.get("steps") or [{}])[0] if isinstance(r, dict) else {}
+        msgs = [m for m in (st.get("messages") or []) if m.startswith("[module")]
+        observed_msgs += msgs
+        got = []
+        for m in msgs:
+            mm = _re.match(r'\[module "main", line (\d+)\] Error(?: at (end|\'((?:[^\']|\'(?!:))*)\'))?:', m)
+            got.append([int(mm.group(1)), ("<end>" if mm.group(2) == "end" else mm.group(3)) if mm.group(2) else None] if mm else [None, m[:60]])
+        want = located.get(name)
+        if st.get("status") != "err" or st.get("kind") != "CompileError" or (want is not None and got != want):
+            failures.append({"what": "compile-error catalogue '%s': reported at %s (status %s), the offending tokens are %s" % (name, got, st.get("status"), want),
+                             "program": src if len(src) < 3000 else src[:3000], "expected_located": want, "observed": [m[:160] for m in msgs],
+                             "signature": "compile-error location: " + name.split("/")[0], "failing_input": True})
+    fmts = cerrors.source_messages(os.path.join(vlib.LEAN_DIR, "Yarel", "Gen", "Messages.lean"))
+    fm_hit, fm_miss = cerrors.coverage(fmts, observed_msgs)
+    if model_ok:
+        csd = specdiff.compile_and_scan_diff(ctx, ccases, broken)
+        for f in csd["failures"]:
+            f["signature"] = "compile-error catalogue vs reference parser: " + f["name"].split("/")[0]
+        failures += csd["failures"]
+        spec_steps += csd["compile_compared"]
     # compile errors whose TEXT names a token: it must be the offending one (F52: "Duplicate attribute" named the token before it)
     named = [
         ("duplicate-attribute-with-arguments", "#[derive(Object),\n  derive(Object)]\nclass A {\n}\n", "[module \"main\", line 2] Error at 'derive': Duplicate attribute 'derive'."),
@@ -439,7 +516,7 @@ def correspondence(ctx, model_ok=True):
             failures.append({"what": "compile error '%s' reads %s, expected %r" % (name, list(c[3])[:1] if len(c) > 3 else c, want), "program": src,
                              "expected_message": want, "observed": c, "signature": "compile-error text: " + name, "failing_input": True})
     cov = {
-        "evaluations": 2 * n_tr + len(host) + len(cat) + len(ucat), "uncaught_builtin_failures": len(ucat),
+        "evaluations": 2 * n_tr + len(host) + len(cat) + len(ucat) + len(ccases), "compile_error_catalogue": len(ccases), "compile_message_formats_in_source": len(fmts), "compile_message_formats_reached": len(fm_hit), "compile_message_formats_not_reached": fm_miss, "uncaught_builtin_failures": len(ucat),
         "distinct_nontrivial": len(nontrivial),
         "rule": "one-statement-per-line programs with a chosen failing statement (19 kinds), call chain of depth 0-4 through functions, methods, "
                 "module bodies and fibers; expected class, first message and every trace entry constructed; distinct = distinct program; 2 GC modes; "
